@@ -108,6 +108,35 @@ LIB_ALPHABET = {
 
 # ------------------------------------------------------------------ generated programs
 
+# A block whose PORTS carry the names the generated programs use for state attributes, locals and constructor
+# arguments.  It is transpiled first in every shard: what the transpiler learns about one class must not leak into the next.
+DECOY = '''
+class Decoy(Logic):
+    def __init__(self, parent, name, s, t, u, k, c0):
+        super().__init__(parent, name)
+        self.s = self.addIn('s', s)
+        self.t = self.addIn('t', t)
+        self.u = self.addOut('u', u)
+        self.k = self.addOut('k', k)
+        self.c0 = self.addOut('c0', c0)
+
+    def clock(self):
+        self.u.prepare(self.s.get())
+        self.k.prepare(self.t.get())
+        self.c0.prepare(self.s.get() ^ self.t.get())
+'''
+
+
+def transpile_decoy(gm):
+    try:
+        with core.quiet():
+            hw = py4hw.HWSystem()
+            gm.mod.Decoy(hw, 'decoy', hw.wire('s', 2), hw.wire('t', 2), hw.wire('u', 2), hw.wire('k', 2), hw.wire('c0', 2))
+            c01.generate(hw)
+    except Exception:
+        core.reset_prepared()
+
+
 class GenModule:
     """writes generated classes into a scratch module so that inspect.getsource works"""
 
@@ -117,6 +146,7 @@ class GenModule:
         src = ['from py4hw.base import Logic', '']
         for i, p in enumerate(progs):
             src.append(progen.source(p, 'P%d' % i))
+        src.append(DECOY)
         with open(os.path.join(self.dir, self.name + '.py'), 'w') as fh:
             fh.write('\n'.join(src))
         sys.path.insert(0, self.dir)
@@ -365,8 +395,9 @@ def run_shard(d):
         progs = progen.programs(d['tier'])[d['lo']:d['hi']]
         gm = GenModule(progs, '%d' % d['lo'])
         try:
+            transpile_decoy(gm)
             for i, p in enumerate(progs):
-                it = progen.Interp(p)
+                it = None if p['family'] == 'wide' else progen.Interp(p)
                 label = 'gen:%s:%s' % (p['kind'], p['family'])
                 explore_program(label, lambda i=i, p=p: build_gen(gm.cls(i), p), res, cap, interp=it,
                                 desc={'family': 'gen', 'tier': d['tier'], 'index': d['lo'] + i, 'body': p['body'], 'kind': p['kind']})
@@ -395,8 +426,9 @@ def replay(v):
     else:
         p = progen.programs(d['tier'])[d['index']]
         gm = GenModule([p], 'replay')
+        transpile_decoy(gm)
         builder = lambda: build_gen(gm.cls(0), p)
-        interp = progen.Interp(p)
+        interp = None if p['family'] == 'wide' else progen.Interp(p)
     try:
         hw, ins, outs, dut = builder()
         sim = hw.getSimulator()
